@@ -832,6 +832,23 @@ def validate_bead_traces(ctx, recs, spans, items):
         ctx.nontriv(("beadtrace", s[2], ctx.seed))
 
 
+def _replay(ctx, exe):
+    """--replay FILE: re-run exactly one recorded vector / history / logged run"""
+    import json
+    obj = json.load(open(ctx.replay))["replay"]
+    if isinstance(obj, dict) and "h" in obj:
+        check_histories(ctx, exe, [obj], "replay")
+    elif isinstance(obj, dict) and "dist" in obj:
+        check_vectors(ctx, exe, [obj], "replay")
+    elif isinstance(obj, dict) and "starts" in obj:
+        validate_graph_traces(ctx, [obj])
+    elif isinstance(obj, dict) and "records" in obj:
+        recs = obj["records"]
+        validate_bead_traces(ctx, recs, [(0, len(recs), 0)], [(0, obj.get("commands", []))])
+    else:
+        raise vlib.InfraError("replay file of unknown shape")
+
+
 def run(ctx):
     bindir = vlib.ensure_build(["drv_graph"])
     exe = bindir + "/drv_graph"
@@ -845,6 +862,9 @@ def run(ctx):
         "driver compiles the graph sources and beadstructure.cc with assertions, ASan and UBSan",
         "the breadth-first visitor's explored set is bound through distances, components and single-network only"]
 
+    if getattr(ctx, "replay", None):
+        return _replay(ctx, exe)
+
     # ---- 1. the breadth-first queue, every neighbour order (design level) ---------------
     mod = "MCBfsQuick" if quick else "MCBfsThorough"
     res = vlib.tlc("graph", mod, cfg=mod + ".cfg", timeout=3000)
@@ -857,6 +877,7 @@ def run(ctx):
     vlib.tlc_must_hold(res, "GraphVec: component/single/reduce/structure-id laws")
     ctx.add_tlc(mod, res)
     vecs = res.records
+    res.out = ""
     if not vecs:
         raise vlib.InfraError("no vectors exported by " + mod)
     check_vectors(ctx, exe, vecs, mod)
@@ -867,30 +888,34 @@ def run(ctx):
     ctx.add_tlc(mod, res)
 
     # ---- 3. BeadStructure call histories (mode H) ---------------------------------------------
-    mod = "MCBeadQuick" if quick else "MCBeadThorough"
-    res = vlib.tlc("beadstructure", mod, cfg=mod + ".cfg", timeout=3000)
-    vlib.tlc_must_hold(res, "BeadStructure: cache coherence, every answer equals the recomputed one")
-    ctx.add_tlc(mod, res)
-    hists = res.records
-    if not hists:
-        raise vlib.InfraError("no histories exported by " + mod)
-    res = vlib.tlc("beadstructure", "MCBeadSim", cfg="MCBeadSim.cfg", timeout=3000, simulate=(40 if quick else 600),
+    del vecs
+    hists = []
+    for mod in (["MCBeadQuick"] if quick else ["MCBeadQuick", "MCBeadThorough"]):
+        res = vlib.tlc("beadstructure", mod, cfg=mod + ".cfg", timeout=3000)
+        vlib.tlc_must_hold(res, "BeadStructure: cache coherence, every answer equals the recomputed one")
+        ctx.add_tlc(mod, res)
+        if not res.records:
+            raise vlib.InfraError("no histories exported by " + mod)
+        hists += res.records
+    res = vlib.tlc("beadstructure", "MCBeadSim", cfg="MCBeadSim.cfg", timeout=3000, simulate=(40 if quick else 300),
                    depth=11, workers=4, seed=ctx.seed)
     vlib.tlc_must_hold(res, "BeadStructure simulation")
     ctx.add_tlc("MCBeadSim(simulate)", res)
-    hists = hists + res.records
-    check_histories(ctx, exe, hists, mod)
+    hists += res.records
+    res = None
+    check_histories(ctx, exe, hists, "MCBead")
     ctx.sample({"history": [_op_str(o) + " -> " + str(o["exp"])[:80] for o in hists[len(hists) // 3]["h"]]})
     ctx.sample({"history": [_op_str(o) + " -> " + str(o["exp"])[:80] for o in hists[-1]["h"]]})
+    del hists
 
     # ---- 4. real runs on larger random graphs, validated by TLC ------------------------------------
-    recs = graph_traces(ctx, exe, 300 if quick else 12000)
+    recs = graph_traces(ctx, exe, 300 if quick else 8000)
     validate_graph_traces(ctx, recs)
     if recs:
         ctx.sample({"validated_run": dict((k, recs[0][k]) for k in ("vs", "es", "chains", "equiv", "equivalt"))})
 
     # ---- 5. long random call sequences on BeadStructure, validated by TLC ----------------------------
-    recs, spans, titems = bead_traces(ctx, exe, 150 if quick else 3000, 40 if quick else 60)
+    recs, spans, titems = bead_traces(ctx, exe, 150 if quick else 2000, 40 if quick else 60)
     validate_bead_traces(ctx, recs, spans, titems)
     ctx.exhaustive = False
 
